@@ -8,4 +8,5 @@ pub mod c08;
 pub mod c09;
 pub mod c11;
 pub mod c15;
+pub mod c19;
 pub mod c20;
